@@ -1617,9 +1617,271 @@ def _nested_load(ck, R, cls, init, field, ec, cfg_key):
           "the constructor does not rebuild %s as the image of the configured %r section: %s" % (tgt, cfg_key, why), where)
 
 
+def _path_part(fa, e, at, pth, depth=10):
+    """Which part of the file path parameter `pth` an expression denotes: 'whole' (the path itself, possibly made
+    absolute / normalised / wrapped in Path or str), 'dir' (its directory), 'name' (its last component), None."""
+    if e is None or depth <= 0:
+        return None
+    rec = lambda x: _path_part(fa, x, at, pth, depth - 1)
+    if isinstance(e, ast.Name):
+        if e.id == pth and all(d.kind == "param" for d in fa.df.reaching(at, e.id)):
+            return "whole"
+        ds = fa.df.reaching(at, e.id)
+        if len(ds) != 1 or ds[0].value is None:
+            return None
+        d = ds[0]
+        if d.kind == "assign":
+            return _path_part(fa, d.value, d.node, pth, depth - 1)
+        if d.kind == "unpack" and isinstance(d.stmt, ast.Assign) and len(d.stmt.targets) == 1 and isinstance(d.stmt.targets[0], (ast.Tuple, ast.List)):
+            names = [A.norm(x) for x in d.stmt.targets[0].elts]
+            v = d.value
+            if e.id in names and len(names) == 2 and isinstance(v, ast.Call) and A.call_dotted(v) in ("os.path.split", "split") \
+                    and len(v.args) == 1 and _path_part(fa, v.args[0], d.node, pth, depth - 1) == "whole":
+                return ("dir", "name")[names.index(e.id)]
+            if e.id in names and isinstance(v, (ast.Tuple, ast.List)) and len(v.elts) == len(names):
+                return _path_part(fa, v.elts[names.index(e.id)], d.node, pth, depth - 1)
+        return None
+    if isinstance(e, ast.Call):
+        name = A.call_dotted(e) or ""
+        last = name.split(".")[-1]
+        if isinstance(e.func, ast.Attribute) and not e.args and last in ("resolve", "absolute", "expanduser", "as_posix", "__fspath__", "__str__"):
+            return rec(e.func.value)
+        if len(e.args) == 1 and not e.keywords:
+            inner = rec(e.args[0])
+            if last in ("str", "Path", "PurePath", "fspath", "abspath", "realpath", "normpath", "expanduser", "cast"):
+                return inner
+            if last == "dirname":
+                return "dir" if inner == "whole" else None
+            if last == "basename":
+                return "name" if inner == "whole" else None
+        if last == "cast" and len(e.args) == 2:
+            return rec(e.args[1])
+        return None
+    if isinstance(e, ast.Attribute):
+        inner = rec(e.value)
+        if e.attr == "parent":
+            return "dir" if inner == "whole" else None
+        if e.attr == "name":
+            return "name" if inner == "whole" else None
+        return None
+    if isinstance(e, ast.Subscript) and isinstance(e.slice, ast.Constant) and e.slice.value in (0, 1, -1, -2) and isinstance(e.value, ast.Call) \
+            and A.call_dotted(e.value) in ("os.path.split", "split") and len(e.value.args) == 1 and rec(e.value.args[0]) == "whole":
+        return "dir" if e.slice.value in (0, -2) else "name"
+    return None
+
+
 # =====================================================================================================
+# R7: template parameters reach the parsed configuration as given
+# =====================================================================================================
+# Environment(...) parameters in positional order (Template(source, ...) takes the same ones after the source)
+_JINJA_ORDER = ("block_start_string", "block_end_string", "variable_start_string", "variable_end_string", "comment_start_string", "comment_end_string",
+                "line_statement_prefix", "line_comment_prefix", "trim_blocks", "lstrip_blocks", "newline_sequence", "keep_trailing_newline", "extensions",
+                "optimized", "undefined", "finalize", "autoescape")
+_JINJA_SYNTAX = {"block_start_string": "{%", "block_end_string": "%}", "variable_start_string": "{{", "variable_end_string": "}}",
+                 "comment_start_string": "{#", "comment_end_string": "#}", "line_statement_prefix": None, "line_comment_prefix": None}
+_JINJA_TEMPLATE = ("jinja2:Template", "jinja2.environment:Template")
+_JINJA_ENVIRONMENT = ("jinja2:Environment", "jinja2.environment:Environment", "jinja2.sandbox:SandboxedEnvironment", "jinja2.sandbox:ImmutableSandboxedEnvironment")
+_PARSERS = ("json:load", "json:loads", "yaml:safe_load", "yaml:load", "yaml:full_load", "yaml:unsafe_load")
+
+
+class _Imports:
+    """The import table of a module, extended by the imports a function makes itself."""
+
+    def __init__(self, mod, func_node=None):
+        self.imports = dict(mod.imports)
+        self.assigns = mod.assigns
+        self.tree = mod.tree
+        for st in (ast.walk(func_node) if func_node is not None else ()):
+            if isinstance(st, ast.Import):
+                for a in st.names:
+                    self.imports[a.asname or a.name.split(".")[0]] = a.name
+            elif isinstance(st, ast.ImportFrom):
+                for a in st.names:
+                    self.imports[a.asname or a.name] = ("." * st.level) + (st.module or "") + ":" + a.name
+
+
+def _origin(mod, f):
+    """'package:name' of the imported thing a callee expression denotes (`Template`, `jinja2.Template`, an alias)."""
+    if isinstance(f, ast.Name):
+        o = mod.imports.get(f.id)
+        if o is None:
+            return None
+        return o if ":" in o else o + ":"
+    if isinstance(f, ast.Attribute):
+        d = A.dotted(f)
+        if not d:
+            return None
+        head, rest = d.split(".", 1)
+        o = mod.imports.get(head)
+        if o is None:
+            return None
+        if ":" in o:  # from jinja2 import sandbox -> sandbox.SandboxedEnvironment
+            pkg, name = o.split(":")
+            parts = [name] + rest.split(".")
+            return "%s.%s:%s" % (pkg, ".".join(parts[:-1]), parts[-1])
+        if o.startswith(head + "."):  # `import jinja2.sandbox` binds the name jinja2
+            o = head
+        parts = rest.split(".")
+        return "%s:%s" % (".".join([o] + parts[:-1]), parts[-1])
+    return None
+
+
+def _module_value(mod, e, depth=4):
+    """A module-level name replaced by the value it is bound to (once, at module level)."""
+    while isinstance(e, ast.Name) and depth > 0 and e.id in mod.assigns:
+        e = mod.assigns[e.id]
+        depth -= 1
+    return e
+
+
+def _jinja_options(ck, mod, call, skip_first):
+    """{option: expression} of a Template(...) / Environment(...) construction; AnalysisError when the call spreads
+    a mapping / sequence this rule cannot see into."""
+    if any(isinstance(a_, ast.Starred) for a_ in call.args) or any(k.arg is None for k in call.keywords):
+        raise AnalysisError("configuration._load_config: `%s` takes its options from a mapping this rule cannot see into" % A.short(call, 60))
+    opts = {}
+    pos = call.args[1:] if skip_first else call.args
+    for name, a_ in zip(_JINJA_ORDER, pos):
+        opts[name] = a_
+    for k in call.keywords:
+        if not (skip_first and k.arg == "source"):
+            opts[k.arg] = k.value
+    return opts
+
+
+def _escapes_strings(ck, mod, e):
+    """Does the `autoescape` setting `e` switch escaping on for a template made from a string (which has no name)?"""
+    e = _module_value(mod, e)
+    if isinstance(e, ast.Constant):
+        return bool(e.value)
+    if isinstance(e, ast.Call) and _origin(mod, e.func) in ("jinja2:select_autoescape", "jinja2.utils:select_autoescape"):
+        if any(isinstance(a_, ast.Starred) for a_ in e.args) or any(k.arg is None for k in e.keywords):
+            raise AnalysisError("configuration._load_config: `%s` cannot be decided" % A.short(e, 60))
+        d = A.arg_or_kw(e, 2, "default_for_string")
+        d = _module_value(mod, d) if d is not None else None
+        if d is None:
+            return True  # select_autoescape: default_for_string=True
+        if isinstance(d, ast.Constant):
+            return bool(d.value)
+        raise AnalysisError("configuration._load_config: `%s` cannot be decided" % A.short(e, 60))
+    if isinstance(e, ast.Lambda) and isinstance(e.body, ast.Constant):
+        return bool(e.body.value)
+    raise AnalysisError("configuration._load_config: autoescape setting `%s` cannot be decided" % A.short(e, 60))
+
+
+def _option_faults(ck, mod, opts, what):
+    """Why a template construction with these options does not substitute parameters as given ([] when it does)."""
+    out = []
+    if "autoescape" in opts and _escapes_strings(ck, mod, opts["autoescape"]):
+        out.append("%s switches HTML escaping on for templates made from a string (`autoescape=%s`): a parameter value containing & < > ' or \" "
+                   "arrives as &amp; &lt; ... in the parsed configuration, so a path or name given through a file differs from the same value given as "
+                   "constructor argument or inline dict" % (what, A.short(opts["autoescape"], 50)))
+    fin = opts.get("finalize")
+    if fin is not None and not A.is_none(_module_value(mod, fin)):
+        out.append("%s passes every substituted value through `%s` before it is parsed" % (what, A.short(fin, 40)))
+    for k, dflt in _JINJA_SYNTAX.items():
+        if k in opts:
+            v = _module_value(mod, opts[k])
+            if not (isinstance(v, ast.Constant) and v.value == dflt):
+                out.append("%s changes the template syntax (`%s=%s`): the documented {{ parameter }} form is no longer substituted" % (what, k, A.short(opts[k], 30)))
+    return out
+
+
+def check_template_parameters_verbatim(ck, R):
+    """A configuration file is a jinja2 template over the keyword arguments of from_file(...).  A parameter has the
+    same effect as the equivalent constructor argument / inline value only if it reaches the parsed text as given:
+    the text that is parsed is the rendered template, the template is rendered with exactly the caller's
+    parameters, and it is built without value-transforming options (autoescape on, finalize) or another syntax."""
+    ck.rule(R, "template parameters of a configuration file reach the parsed configuration as given: the parsed text is the rendered template, "
+               "rendered with the caller's keyword arguments, by a template built without escaping / finalizing / another syntax", 4)
+    fa = FA(ck, "configuration._load_config")
+    mod = _Imports(fa.fi.module, fa.node)
+    ck.need(fa.node.args.kwarg is not None, "configuration._load_config: no **kwargs parameter (the template parameters)")
+    KW = fa.node.args.kwarg.arg
+    parses = [c for c in fa.calls() if _origin(mod, c.func) in _PARSERS and c.args and fa.nodes(c)]
+    if not parses:
+        # the parser chosen first (a table by file extension, a conditional expression) and called through a local
+        def parser_ref(atom):
+            if not atom.startswith(("attr:", "global:")):
+                return False
+            try:
+                return _origin(mod, ast.parse(atom.split(":", 1)[1], mode="eval").body) in _PARSERS
+            except SyntaxError:
+                return False
+        for c in fa.calls():
+            if c.args and fa.nodes(c) and not isinstance(c.func, ast.Attribute) and any(parser_ref(a_) for a_ in fa.deps(c.func, fa.nodes(c)[0])):
+                parses.append(c)
+    ck.need(parses, "configuration._load_config: no json / yaml parse call found")
+    renders = [c for c in fa.calls("render") if isinstance(c.func, ast.Attribute) and fa.nodes(c)]
+    for c in parses:
+        ok = "call:render" in fa.deps(c.args[0], fa.nodes(c)[0])
+        ck.ob(R, fa.key(c, "parsed-text-is-rendered"), ok, "`%s` parses the rendered template" % A.short(c, 40) if ok else
+              "`%s` parses text that did not go through the template: parameters given to from_file(...) are not substituted" % A.short(c, 50), fa.where(c))
+    # every loader that accepts template parameters hands them on to _load_config, all of them, as given
+    n_fwd = 0
+    for f in fa.fi.module.all_funcs():
+        if f.node.args.kwarg is None or f.qual == fa.qual or f.parent is not None:
+            continue
+        ff = FA(ck, f)
+        for c in ff.calls(fa.fi.name):
+            if not ff.nodes(c):
+                continue
+            n_fwd += 1
+            kw = f.node.args.kwarg.arg
+            spread = [ff.xnorm(k.value, ff.nodes(c)[0]) for k in c.keywords if k.arg is None]
+            okf = any(x in (kw, "dict(%s)" % kw, "{**%s}" % kw, "%s.copy()" % kw) for x in spread)
+            ck.ob(R, ff.key(c, "parameters-forwarded"), okf, "%s hands its template parameters to the loader" % f.qual if okf else
+                  "%s accepts template parameters (**%s) but `%s` does not pass them on as given: the file is rendered without them"
+                  % (f.qual, kw, A.short(c, 50)), ff.where(c))
+    ck.need(n_fwd >= 1, "no file loader with template parameters (**kwargs) calling _load_config found")
+    if not renders:
+        return
+    for c in renders:
+        at = fa.nodes(c)[0]
+        # the caller's parameters, all of them, as given
+        handed = False
+        for a_ in [x.value if isinstance(x, ast.Starred) else x for x in c.args] + [k.value for k in c.keywords if k.arg is None]:
+            x = fa.xnorm(a_, at)
+            if x in (KW, "dict(%s)" % KW, "{**%s}" % KW, "dict(**%s)" % KW, "%s.copy()" % KW):
+                handed = True
+        ck.ob(R, fa.key(c, "parameters-handed-over"), handed, "the template is rendered with the caller's parameters" if handed else
+              "`%s` does not render the template with the caller's parameters (`**%s`) as given" % (A.short(c, 50), KW), fa.where(c))
+        # the template: built from the file's text, nothing that transforms substituted values
+        t = fa.expand(A.call_recv(c), at)
+        while isinstance(t, ast.Call) and isinstance(t.func, ast.Name) and t.func.id == "cast" and len(t.args) == 2:
+            t = t.args[1]
+        faults, src = [], None
+        if isinstance(t, ast.Call) and _origin(mod, t.func) in _JINJA_TEMPLATE:
+            src = A.arg_or_kw(t, 0, "source")
+            faults = _option_faults(ck, mod, _jinja_options(ck, mod, t, True), "`%s`" % A.short(t, 40))
+        elif isinstance(t, ast.Call) and A.call_attr(t) == "from_string" and A.call_recv(t) is not None:
+            src = A.arg_or_kw(t, 0, "source")
+            envx = A.call_recv(t)
+            env = _module_value(mod, envx)
+            if not (isinstance(env, ast.Call) and _origin(mod, env.func) in _JINJA_ENVIRONMENT):
+                raise AnalysisError("configuration._load_config: the template environment `%s` is not a jinja2 Environment construction this rule can see" % A.short(envx, 40))
+            what = "the template environment `%s`" % (A.norm(envx) if isinstance(envx, ast.Name) else A.short(env, 40))
+            opts = _jinja_options(ck, mod, env, False)
+            if isinstance(envx, ast.Name):
+                # settings applied to the shared environment after it was made
+                for x in ast.walk(mod.tree):
+                    if isinstance(x, ast.Assign):
+                        for tg in x.targets:
+                            if isinstance(tg, ast.Attribute) and isinstance(tg.value, ast.Name) and tg.value.id == envx.id:
+                                opts[tg.attr] = x.value
+            faults = _option_faults(ck, mod, opts, what)
+        else:
+            raise AnalysisError("configuration._load_config: `%s` is rendered, which is not a jinja2 Template / Environment.from_string construction this rule can see" % A.short(t, 60))
+        cfgp = fa.fi.params[1] if len(fa.fi.params) > 1 else "config"
+        if src is None or ("param:" + cfgp) not in fa.deps(src, at):
+            faults.append("the template is not made from the text of the configuration file")
+        ck.ob(R, fa.key(c, "substituted-as-given"), not faults, "parameters are substituted as given (no escaping, no finalizer, default syntax)" if not faults else
+              faults[0], fa.where(c))
+
+
 def check(ck):
     from .memo import check_new_memo_tables
+    ck.run(check_template_parameters_verbatim, ck, "C18.R7")
     ck.run(check_new_memo_tables, ck, "C18.M1", ('configuration', 'storage', 'storage_filesystem', 'storage_memory'))
     ck.rule("C18.R5", "constructors never modify the configuration object they are given", 4)
     ck.run(check_config_not_mutated, ck, "C18.R5")
@@ -1806,6 +2068,10 @@ def check(ck):
         a0 = f.deps(lc.args[0]) if lc.args else set()
         a1 = f.deps(lc.args[1]) if len(lc.args) > 1 else set()
         ok = "call:dirname" in a0 and "call:basename" not in a0 and ("param:" + pth) in a0 and ("param:" + pth) in a1
+        if not ok and len(lc.args) > 1:
+            # the same split spelled otherwise: os.path.split(p) unpacked, Path(p).parent / .name, through temporaries
+            at = f.nodes(lc)[0]
+            ok = _path_part(f, lc.args[0], at, pth) == "dir" and _path_part(f, lc.args[1], at, pth) in ("name", "whole")
         ck.ob(R1, f.key(None, "relative-file"), ok, "the configuration file is resolved against its own directory" if ok else
               "%s passes `%s` as the base directory of the file: a relative path (also a relative MEMENTO_ENV) is looked up under "
               "'<file name>/<path>' and cannot be loaded" % (q.split(".")[-2] + ".from_file", A.short(lc.args[0], 50) if lc.args else "?"), f.where(lc))
